@@ -3,7 +3,7 @@
    Only statements; proofs are [exact: <lemma>]. *)
 From mathcomp Require Import all_ssreflect all_algebra.
 From NSpa Require Import Model.Vec Model.Hrr Model.Vtb
-  Theory.SeqSum Theory.Conv Theory.MxBridge Theory.VtbLaws Theory.ElemLaws.
+  Theory.SeqSum Theory.Conv Theory.MxBridge Theory.VtbLaws Theory.ElemLaws Theory.Fourier.
 Import GRing.Theory.
 Local Open Scope ring_scope.
 
@@ -191,6 +191,25 @@ Theorem C08_tvtb_unitarity_is_two_sided :
   forall (R : comUnitRingType) s (v : seq R), tvtb_unitary_r s v <-> tvtb_unitary_l s v.
 Proof. exact: tvtb_unitary_sides. Qed.
 Print Assumptions C08_tvtb_unitarity_is_two_sided.
+
+(* ---------------- HRR inverse in the Fourier domain ------------------------------------------ *)
+Theorem C08_hrr_inverse_reverses_the_spectrum :
+  forall (R C : comRingType) (iota : {rmorphism R -> C}) p (w : C),
+    w ^+ p.+1 = 1 ->
+    forall (a : seq R) (k : 'I_p.+1), size a = p.+1 ->
+    spectrum iota w (hrr_invert a) k = spectrum iota w a (- k).
+Proof. first [exact: spectrum_invert | by move=> *; exact: spectrum_invert | by intros; eapply spectrum_invert; eauto]. Qed.
+Print Assumptions C08_hrr_inverse_reverses_the_spectrum.
+
+Theorem C08_vector_with_reversed_spectrum_is_the_inverse :
+  forall (R C : comRingType) (iota : {rmorphism R -> C}) p (w : C),
+    w ^+ p.+1 = 1 ->
+    (forall j : 'I_p.+1, j != 0 -> \sum_k chi w k j = 0) ->
+    GRing.lreg (p.+1%:R : C) -> injective iota ->
+    forall (a r : seq R), size a = p.+1 -> size r = p.+1 ->
+    (forall k : 'I_p.+1, spectrum iota w r k = spectrum iota w a (- k)) -> r = hrr_invert a.
+Proof. first [exact: reversed_spectrum_is_inverse | by move=> *; exact: reversed_spectrum_is_inverse | by intros; eapply reversed_spectrum_is_inverse; eauto]. Qed.
+Print Assumptions C08_vector_with_reversed_spectrum_is_the_inverse.
 
 (* non-vacuity: exactly unitary vectors exist in every algebra (d = 4) *)
 From mathcomp Require Import ssrZ.
